@@ -39,8 +39,9 @@ class Scripted:
             self.lastk = None
         self.lines.append(f"RF {bits(x)}"); return x
 
-    def integers(self, low, high=None):
+    def integers(self, low, high=None, endpoint=False):
         if high is None: low, high = 0, low
+        if endpoint: high += 1
         x = self.r.randrange(low, high)         # ValueError when the range is empty, as numpy
         self.lines.append(f"RI {low} {high} {x}"); self.lastk = x; return x
 
